@@ -86,6 +86,7 @@ pub fn oracle(tr: &Transition) -> Vec<Violation> {
 pub fn on_state(st: &hist::HState, scratch: &crate::util::Scratch, srcs: &crate::common::SrcCache) -> Vec<(Violation, Value)> {
     let mut out = Vec::new();
     faulty_backup_rider(st, scratch, srcs, &mut out);
+    foreign_lock_rider(st, scratch, srcs, &mut out);
     let ids = st.snap.band_ids();
     let newest_complete = ids.last().is_some_and(|b| st.snap.has_tail_file(*b));
     if ids.len() < 2 || !newest_complete {
@@ -209,6 +210,51 @@ fn faulty_backup_rider(st: &hist::HState, scratch: &crate::util::Scratch, srcs: 
                 ));
                 break;
             }
+        }
+    }
+}
+
+/// Third state rider: the state with a `GC_LOCK` file lying in it, as a gc that was killed leaves
+/// it (or one that is still running elsewhere holds it). A gc, a delete and a backup started on
+/// it are refused; replayed under the runtime flavours they must leave the same archive (a lock that
+/// is there in one replay and gone in another makes every later operation differ).
+fn foreign_lock_rider(st: &hist::HState, scratch: &crate::util::Scratch, srcs: &crate::common::SrcCache, out: &mut Vec<(Violation, Value)>) {
+    if st.snap.band_ids().is_empty() || st.snap.files.contains_key("GC_LOCK") || (THOROUGH.load(Ordering::Relaxed) == 0 && st.depth > 1) {
+        return;
+    }
+    let src = srcs.dir_for(&st.src.tree());
+    let opts = hist::opts_of(0);
+    let first = st.snap.band_ids()[0];
+    for what in ["gc", "delete", "backup"] {
+        let mut results = Vec::new();
+        for flavor in [Flavor::Current, Flavor::Multi(2), Flavor::CurrentExitAtOnce] {
+            let dir = scratch.fresh("fl");
+            st.snap.store(&dir);
+            std::fs::write(dir.join("GC_LOCK"), b"{}\n").unwrap();
+            let desc = match what {
+                "gc" => run::do_delete(&dir, &[], false, false, run::NOHOOK, flavor, None).op.describe(),
+                "delete" => run::do_delete(&dir, &[first], false, false, run::NOHOOK, flavor, None).op.describe(),
+                _ => run::do_backup(&dir, &src, &opts, run::NOHOOK, flavor).describe(),
+            };
+            REEXEC.fetch_add(1, Ordering::Relaxed);
+            let after = Snap::load(&dir).canonical();
+            results.push((after.clone(), desc.clone()));
+            let _ = std::fs::remove_dir_all(&dir);
+        }
+        if results.iter().any(|r| r.0 != results[0].0) {
+            out.push((
+                Violation::new(
+                    format!("C17:archive-differs-between-replays:{what}-on-an-archive-locked-by-someone-else"),
+                    format!(
+                        "seed {} after {:?} with a GC_LOCK lying there: {what} replayed under three runtimes ({:?}) leaves different archives",
+                        st.seed,
+                        st.describe_path(),
+                        results.iter().map(|r| r.1.chars().take(60).collect::<String>()).collect::<Vec<_>>()
+                    ),
+                ),
+                hist::case_json("C17", st.seed, &st.path),
+            ));
+            return;
         }
     }
 }
